@@ -633,6 +633,7 @@ func (w *world) factsJSON() map[string]interface{} {
 	m["consts"] = w.constants()
 	m["tags"] = w.structTags()
 	m["writes"] = w.writeSets()
+	m["shared"] = w.sharedState()
 	m["deps"] = depVersions(repoRoot)
 	m["templatePkg"] = w.templateImport()
 	return m
@@ -755,6 +756,8 @@ func (w *world) emitFacts() string {
 		}
 		fmt.Fprintf(&sb, "  (%s, %s, %s)%s\n", leanStr(x.Func), leanStr(x.Target), b, comma)
 	}
-	sb.WriteString("]\n\nend Gen.Facts\n")
+	sb.WriteString("]\n\n")
+	w.emitSharedFacts(&sb)
+	sb.WriteString("end Gen.Facts\n")
 	return sb.String()
 }
